@@ -86,6 +86,11 @@ func (s *c13scn) advance() {
 	s.clock.Store(next)
 }
 
+func (s *c13scn) tbCap() float64 {
+	_, capacity, _, _, _, _, _ := s.tb.StateForVerif(true)
+	return capacity
+}
+
 func mu6(x float64) int64 { return int64(math.Round(x * 1e6)) }
 
 func (s *c13scn) record(op string, locked bool, extra map[string]any) {
@@ -94,9 +99,9 @@ func (s *c13scn) record(op string, locked bool, extra map[string]any) {
 		"tokens": mu6(tokens), "cap": int64(capacity), "rate": mu6(rate), "ratem": int64(math.Round(rate * 1e3)),
 		"ideal": mu6(ideal), "idealm": int64(math.Round(ideal * 1e3)),
 		"lr": s.ms(lastRefill), "pen": s.ms(pen), "fc": fc}
-	if op == "take" {
-		// the instant the bucket itself used for this release (it refilled in the same critical section): with several
-		// waiters the scenario's clock may already have been moved on by another waiter's poll
+	if op == "take" && (s.kind == "crowd" || s.kind == "concurrent") {
+		// several waiters: the scenario's clock may already have been moved on by another waiter's poll; the instant that
+		// counts is the one the bucket itself used for this release (it refilled in the same critical section)
 		ev["t"] = s.ms(lastRefill)
 	}
 	for k, v := range extra {
@@ -268,6 +273,20 @@ func c13(args []string) error {
 				}()
 			}
 			w.Wait()
+		})
+	}
+	// back-to-back requests after an idle period on a full bucket: exactly capacity of them go at once
+	for i := 0; i < 6+n/10; i++ {
+		id++
+		rng := vh.Rand(int64(1700 + i))
+		s := mk(id, "burst", caps[rng.Intn(len(caps))], ideals[rng.Intn(len(ideals))], 50, false)
+		run(s, func(s *c13scn) {
+			for round := 0; round < 3; round++ {
+				s.clock.Add(int64(20000 + rng.Intn(100000))) // long enough to fill any of the buckets
+				for k := 0; k < int(s.tbCap())+2; k++ {
+					s.tb.Wait()
+				}
+			}
 		})
 	}
 	// answers of requests that were already in flight arrive while the penalty runs: each one counts
